@@ -71,7 +71,7 @@ Proof.
       split; [intros; lia|]. split; [intros _|intros; lia]. split; [reflexivity|]. split; [reflexivity|].
       assert (Hp0 : 0 <= pen) by lia.
       rewrite (gsend_delta _ _ _ _ _ _ Hp0 H2 k), HL1. lia.
-    + apply obind_ok in H as (L1 & H1 & H). injection H as <- <- <-. apply oerr_ok in H1.
+    + apply obind_ok in H as (L1 & H1 & H). destruct (l_stuck lk); [discriminate|]. injection H as <- <- <-. apply oerr_ok in H1.
       exists 0, (l_fee lk). split; [lia|]. split; [lia|]. split; [lia|]. split; [intros; lia|]. intros k.
       split; [intros; lia|]. split; [intros; lia|]. intros _ _. split; [reflexivity|]. split; [reflexivity|].
       apply send_delta with (k := k) in H1. exact H1.
@@ -345,7 +345,7 @@ Proof. exact (reserve_backed_gen false cf lk a s who amt0 wd twa s' a' r rv). Qe
    collateral left against 9143315 debt, reserve 1000, closing bid at a price where the collateral
    covers only 8703243 *)
 Definition w_cf : acfg := mkCfg 1500000000000000000 650000000000000000 1000 0 0 1000000 1000000.
-Definition w_lk : locked := mkLk 4890000 9144300 831300 831300 2 false false.
+Definition w_lk : locked := mkLk 4890000 9144300 831300 831300 2 false false false.
 Definition w_au : auction := mkAu 4889641 9143315 831300 1949947497374868743437172 3000000000000000000000000
                                   2380000000000000000000000 1000000000000000000000000 0 1000.
 Definition w_led (liq : Z) : ledger := fun k => if k =? 0 then 4889641 else if k =? 1 then 985 else if k =? 7 then liq
@@ -378,7 +378,7 @@ Qed.
 (* C10-F3 (harness corpus case 0 = seed 1 case 0 of the first build): external auction of an app
    with KeeeperIncentive 0.1; before the repair every closing bid panicked *)
 Definition x_cf : acfg := mkCfg 1500000000000000000 700000000000000000 3600 1000000 100000000000000000 1000000 1000000.
-Definition x_lk : locked := mkLk 568000 493592 44872 0 2 false false.
+Definition x_lk : locked := mkLk 568000 493592 44872 0 2 false false false.
 Definition x_au : auction := mkAu 568000 493592 0 1500000000000000000000000 1500000000000000000000000
                                   1000000000000000000000000 1000000000000000000000000 7201 10801.
 Definition x_led : ledger := fun k => if k =? 0 then 568000 else if k =? 7 then 1125899906842624
